@@ -183,6 +183,16 @@ func checkViews(res *srRes, c *srCase, api, text string, n *ast.Node, want *srVi
 		res.bad(c, api, "raw_differs", text, want.Text, raw)
 		return
 	}
+	// the UseNumber conversion first, on a copy that is still as lazy as the lookup left it (every conversion loads the node
+	// it is called on, so the second one would only ever see a loaded node)
+	nu := *n
+	if un0, e0 := nu.InterfaceUseNumber(); e0 != nil {
+		res.bad(c, api, "interface_usenumber_error", text, want.Iface, e0.Error())
+	} else if f, _ := numberKinds(un0); f != "" && f != "json.Number" {
+		res.bad(c, api, "interface_usenumber_number_type", text, "json.Number (on the node as located)", f)
+	} else if b0, _ := json.Marshal(un0); string(b0) != want.Iface {
+		res.bad(c, api, "interface_usenumber_differs", text, want.Iface, string(b0))
+	}
 	iv, err := n.Interface()
 	ib, _ := json.Marshal(iv)
 	if err != nil || string(ib) != want.Iface {
@@ -192,6 +202,13 @@ func checkViews(res *srRes, c *srCase, api, text string, n *ast.Node, want *srVi
 	ub, _ := json.Marshal(un)
 	if err != nil || string(ub) != want.Iface {
 		res.bad(c, api, "interface_usenumber_differs", text, want.Iface, string(ub))
+	}
+	// the representation of numbers is part of each view: float64 in the plain conversions, json.Number in the UseNumber ones
+	if f, _ := numberKinds(iv); f != "" && f != "float64" {
+		res.bad(c, api, "interface_number_type", text, "float64", f)
+	}
+	if f, _ := numberKinds(un); f != "" && f != "json.Number" {
+		res.bad(c, api, "interface_usenumber_number_type", text, "json.Number", f)
 	}
 	switch want.Kind {
 	case "num":
@@ -219,6 +236,13 @@ func checkViews(res *srRes, c *srCase, api, text string, n *ast.Node, want *srVi
 		if e1 != nil || string(ab) != want.Iface {
 			res.bad(c, api, "array_differs", text, want.Iface, string(ab))
 		}
+		if au, e2 := n.ArrayUseNumber(); e2 != nil {
+			res.bad(c, api, "array_usenumber_error", text, want.Iface, e2.Error())
+		} else if f, _ := numberKinds(au); f != "" && f != "json.Number" {
+			res.bad(c, api, "array_usenumber_number_type", text, "json.Number", f)
+		} else if b2, _ := json.Marshal(au); string(b2) != want.Iface {
+			res.bad(c, api, "array_usenumber_differs", text, want.Iface, string(b2))
+		}
 		if got := applyAstOp(n, &astOp{O: "Iterate"}, false); got != want.Listing {
 			res.bad(c, api, "iteration_differs", text, want.Listing, got)
 		}
@@ -242,6 +266,13 @@ func checkViews(res *srRes, c *srCase, api, text string, n *ast.Node, want *srVi
 		if e1 != nil || string(mb) != want.Iface {
 			res.bad(c, api, "map_differs", text, want.Iface, string(mb))
 		}
+		if mu, e2 := n.MapUseNumber(); e2 != nil {
+			res.bad(c, api, "map_usenumber_error", text, want.Iface, e2.Error())
+		} else if f, _ := numberKinds(mu); f != "" && f != "json.Number" {
+			res.bad(c, api, "map_usenumber_number_type", text, "json.Number", f)
+		} else if b2, _ := json.Marshal(mu); string(b2) != want.Iface {
+			res.bad(c, api, "map_usenumber_differs", text, want.Iface, string(b2))
+		}
 		if got := applyAstOp(n, &astOp{O: "Iterate"}, false); got != want.Listing {
 			res.bad(c, api, "iteration_differs", text, want.Listing, got)
 		}
@@ -255,6 +286,40 @@ func checkViews(res *srRes, c *srCase, api, text string, n *ast.Node, want *srVi
 			res.bad(c, api, "properties_iterator", text, fmt.Sprint(want.Len), fmt.Sprint(cnt, e2))
 		}
 	}
+}
+
+// numberKinds: the Go type of the numbers inside a generic value ("" none, "mixed" when they differ)
+func numberKinds(v interface{}) (string, int) {
+	kind, n := "", 0
+	var walk func(x interface{})
+	add := func(k string) {
+		n++
+		if kind == "" {
+			kind = k
+		} else if kind != k {
+			kind = "mixed"
+		}
+	}
+	walk = func(x interface{}) {
+		switch t := x.(type) {
+		case float64:
+			add("float64")
+		case json.Number:
+			add("json.Number")
+		case int64:
+			add("int64")
+		case []interface{}:
+			for _, e := range t {
+				walk(e)
+			}
+		case map[string]interface{}:
+			for _, e := range t {
+				walk(e)
+			}
+		}
+	}
+	walk(v)
+	return kind, n
 }
 
 func judgeLookup(res *srRes, c *srCase, api, text string, n *ast.Node, err error, want *srView) {
